@@ -1,8 +1,8 @@
 """C13 — upsert inserts exactly one well-formed document iff nothing matches.
 
 Histories dominated by upserting calls (update_one, update_many, replace_one,
-find_one_and_update / _replace, bulk upserts) whose filters mix equalities, `$eq`, dotted paths
-and operator conditions, aimed half at existing documents and half past them, run on the real
+find_one_and_update / _replace, bulk upserts) whose filters mix equalities (plain and `$eq`, of
+scalars, sub-documents - the empty one included - and arrays), dotted paths and operator conditions, aimed half at existing documents and half past them, run on the real
 code and on the Lean model (`MongoModel.applyUpdateColl … upsert`).  Directly on python:
 before every such call the harness asks the real `find` what matches; afterwards exactly one
 document was added iff nothing matched, nothing existing was touched by an insert, a matching
@@ -25,9 +25,11 @@ ID = 'C13'
 SALT = 1313
 RULE = ('history = 2-14 generated operations, about two thirds of them update_one / update_many / '
         'replace_one / find_one_and_update / find_one_and_replace / bulk requests with upsert=True '
-        '(a sixth with upsert=False), filters of 1-3 conditions mixing scalar equalities, {$eq: v}, '
-        'dotted paths, _id (scalar and embedded), _id.k and operator conditions ($gt $in $ne '
-        '$exists), aimed at existing documents about half of the time; updates with 1-3 '
+        '(a sixth with upsert=False), filters of 1-3 conditions mixing equalities stated plainly '
+        'and as {$eq: v} - v a scalar (two thirds), an empty / flat / nested sub-document, an array, '
+        'or a sub-document with an operator inside - on fields and on dotted paths, _id (scalar and '
+        'embedded), _id.k and operator conditions ($gt $in $ne $exists), aimed at existing '
+        'documents about half of the time; updates with 1-3 '
         'operators including $setOnInsert; every step is compared with the Lean model (outcome, '
         'full state) and judged directly on python against find-before / find-after, a twin run '
         'without upsert and an independent seed + operator reference; non-trivial = an upsert that '
@@ -54,6 +56,32 @@ class Gen13(hist.HistGen):
             return copy.deepcopy(d[f])
         return r.choice([1, 2, 3, 'x', 'y', None, True, 2.5, 7])
 
+    def eq_value(self, d, f):
+        """the value of an equality condition — anything a field can hold: scalars (mostly),
+        sub-documents (empty, flat, nested, with empty members), arrays, and now and then a
+        sub-document with an operator condition inside (given whole, it contributes nothing)"""
+        r = self.r
+        x = r.random()
+        if x < 0.66:
+            return self.cond_value(d, f)
+        if d is not None and isinstance(d.get(f), (dict, list)) and r.random() < 0.4:
+            return copy.deepcopy(d[f])
+        if x < 0.76:
+            return {}
+        if x < 0.88:
+            sub = self.g.doc(1, maxf=2)
+            if sub and r.random() < 0.3:
+                sub[r.choice(list(sub))] = {}
+            return sub
+        if x < 0.96:
+            return r.choice([[], [1], [1, 2], ['x'], [{}], [[]], [{'a': 1}]])
+        return {r.choice(gen.FIELDS): r.choice([{'$gt': 1}, {'$eq': {}}, {'$eq': 2}, {'$lt': 2, '$gt': 0}])}
+
+    def condition(self, d, f):
+        """an equality stated plainly or through $eq"""
+        v = self.eq_value(d, f)
+        return {'$eq': v} if self.r.random() < 0.5 else v
+
     def filt(self):
         r = self.r
         d = self.some_doc()
@@ -69,13 +97,13 @@ class Gen13(hist.HistGen):
                 f['_id.' + r.choice(['j', 'k'])] = r.choice([1, 2, 'a'])
             elif x < 0.5:
                 k = r.choice(gen.FIELDS)
-                f[k] = self.cond_value(d, k)
+                f[k] = self.eq_value(d, k)
             elif x < 0.6:
                 k = r.choice(gen.FIELDS)
-                f[k] = {'$eq': self.cond_value(d, k)}
+                f[k] = {'$eq': self.eq_value(d, k)}
             elif x < 0.78:
-                f[r.choice(gen.FIELDS) + '.' + r.choice(gen.FIELDS + ['0'])] = r.choice(
-                    [1, 'x', None, {'$eq': 4}, {'$gt': 1}])
+                k = r.choice(gen.FIELDS) + '.' + r.choice(gen.FIELDS + ['0'])
+                f[k] = self.condition(None, k) if r.random() < 0.8 else {'$gt': 1}
             elif x < 0.95:
                 k = r.choice(gen.FIELDS)
                 f[k] = r.choice([{'$gt': r.choice([0, 2, 100])}, {'$in': [1, 'x', 9]},
@@ -188,6 +216,27 @@ def seed_of(filt):
             raise refupdate.Unknown('numeric component')
         refupdate.set_at(seed, parts, copy.deepcopy(v))
     return seed, paths
+
+
+def op_under_eq(filt):
+    """known class `upsert-op-under-eq`: an operator condition on a dotted path that runs through
+    the sub-document given as the value of an equality condition stated earlier in the filter
+    ({'b': {}, 'b.k': {'$gt': 1}}): `_expand_dots` merges the operator document into that value
+    instead of leaving it alone (in the other order, or over a scalar, it raises WriteError)"""
+    if not isinstance(filt, dict):
+        return False
+    eq_paths = []
+    for k, v in filt.items():
+        k = str(k)
+        if k.startswith('$'):
+            continue
+        parts = k.split('.')
+        if is_opdoc(v) and '$eq' not in v:
+            if any(len(q) < len(parts) and parts[:len(q)] == q for q in eq_paths):
+                return True
+        elif isinstance(v, dict) and not is_opdoc(v):
+            eq_paths.append(parts)
+    return False
 
 
 def has_dollar(v):
@@ -342,6 +391,8 @@ def judge(history, i, st, prev, docs, up, pre):
         if not refupdate.same_doc(strip_id(exp, keep), strip_id(nd, keep)) and \
                 not operator_quirk(spec, exp, nd):
             lab = 'upsert-content'
+            if op_under_eq(filt):
+                lab = 'upsert-op-under-eq'
             if nullid and refupdate.same_doc(strip_id(exp, False), strip_id(nd, False)):
                 lab = 'nullid'
             fails.append((i, lab, '%s(upsert=True) filter %r update %r inserted %r, '
@@ -358,7 +409,8 @@ def judge(history, i, st, prev, docs, up, pre):
     if pr and 'error' not in pr and isinstance(filt, dict):
         try:
             seed, paths = seed_of(filt)
-            pure = all(not is_opdoc(v) for v in filt.values()) and \
+            # equality conditions only: plain values and {$eq: v}
+            pure = all(not is_opdoc(v) or set(v) == {'$eq'} for v in filt.values()) and \
                 not has_dollar(seed) and no_nulls_or_arrays(seed)
         except refupdate.Unknown:
             pure = False
